@@ -47,8 +47,7 @@ def _store_targets(f):
 
 
 def run(ck, progs):
-    ck.not_decided = ("that the receiver id a grid helper computes for a valid move is the id of the cell it moved to (y * width + x), the probabilities of "
-                      "the random choices, and receiver validity for the one-region star / one-region rings")
+    ck.not_decided = ("the probabilities of the random choices")
     ck.rule("C19.1", "purity: everything reachable from GetReceiver / CountDirections / IsNeighbor writes only its own locals (a store through a "
                      "parameter counts as a store to whatever call sites bind to it); no function-static state; randomness comes only from "
                      "the calling LP's generator")
@@ -495,6 +494,10 @@ def _counts(ck, P, cfg):
         h = P.fn(hname)
         try:
             valid = T.helper_validity(h, dirs)
+        except T.Wrong as u:
+            n += 1
+            ck.violated("C19.5", "inside:%s" % hname, u.node.where if u.node is not None else h.where, "%s: %s" % (hname, u.why), cfg)
+            continue
         except T.Unknown as u:
             ck.inconclusive("C19.5", inst, u.node.where if u.node is not None else h.where, "%s: %s" % (hname, u.why), cfg)
             continue
@@ -563,6 +566,61 @@ def _counts(ck, P, cfg):
             ck.violated("C19.5", inst, bodies[gname][0].where, "CountDirections returns %d but %s answers %d fixed direction(s) %s" % (res[1], hname, len(answered), answered), cfg)
         else:
             ck.holds("C19.5", inst, bodies[gname][0].where, "returns %d = the fixed directions %s answers %s" % (res[1], hname, answered), cfg)
+    # rings: what the helper answers is a region of the ring (reduced modulo the number of regions)
+    for hname in ("get_neighbor_ring", "get_neighbor_bidring"):
+        h = P.fn_opt(hname)
+        if h is None:
+            continue
+        inst = "inside:%s" % hname
+        bad = None
+        nret = 0
+        for r in h.walk():
+            if r.k != "ReturnStmt" or not r.children:
+                continue
+            e = X.strip(r.children[0], casts=True)
+            if T._is_invalid(e):
+                continue
+            nret += 1
+            if not (e.k == "BinaryOperator" and e.op == "%" and X.strip(e.children[1], casts=True).k == "MemberExpr" and X.strip(e.children[1], casts=True).name == "regions"):
+                bad = bad or r
+        if bad is not None:
+            ck.violated("C19.5", inst, bad.where, "%s returns `%s`, which is not reduced modulo the number of regions: from the last region it names a region that does not exist" % (hname, X.show(bad.children[0])[:60]), cfg)
+        elif nret:
+            ck.holds("C19.5", inst, h.where, "every region %s returns is taken modulo the number of regions" % hname, cfg)
+    # star: a leaf's only neighbour is the centre, region 0
+    h = P.fn_opt("get_neighbor_star")
+    if h is not None:
+        inst = "leaf-to-centre@get_neighbor_star"
+        try:
+            res = T.Abs(h, {"Z": False}, env={"direction": dirs and P.enum_const("DIRECTION_RANDOM")}).run(list(h.root.children))
+        except T.Unknown as u:
+            res = None
+        if res is None or res[0] != "ret":
+            ck.inconclusive("C19.5", inst, h.where, "leaf branch not evaluable", cfg)
+        elif res[1] == 0:
+            ck.holds("C19.5", inst, h.where, "a leaf gets region 0, the centre", cfg)
+        else:
+            ck.violated("C19.5", inst, h.where, "a leaf gets %s instead of the centre (region 0), which is its only neighbour" % _symshow(res[1]), cfg)
+    # mesh: the draw is repeated until it differs from `from`
+    h = P.fn_opt("get_neighbor_mesh")
+    if h is not None:
+        inst = "not-self@get_neighbor_mesh"
+        draws = [c for c in h.calls() if c.callee in ("Random", "RandomRange", "RandomU64")]
+        okl = False
+        for c in draws:
+            lp = c.parent
+            while lp is not None and lp.k not in ("DoStmt", "WhileStmt", "ForStmt"):
+                lp = lp.parent
+            if lp is not None:
+                cond = [x for x in lp.children if x.k not in ("CompoundStmt", "Null")]
+                if cond and any(x.k == "BinaryOperator" and x.op == "==" and any(y.k == "DeclRefExpr" and y.name == "from" for y in x.walk()) for x in cond[-1].walk()):
+                    okl = True
+        if not draws:
+            ck.inconclusive("C19.5", inst, h.where, "no random draw", cfg)
+        elif okl:
+            ck.holds("C19.5", inst, draws[0].where, "the draw is repeated while it equals `from`", cfg)
+        else:
+            ck.violated("C19.5", inst, draws[0].where, "the random receiver of a full mesh can be `from` itself: CountDirections counts the OTHER regions as neighbours", cfg)
     # star, mesh: number of other regions / one
     for gname, cases in (("TOPOLOGY_FCMESH", [({}, ("R", -1))]), ("TOPOLOGY_STAR", [({"Z": True}, ("R", -1)), ({"Z": False}, 1)])):
         inst = "count:%s" % gname
